@@ -41,6 +41,7 @@ PROPS = {
         "assumptions": ["bursts are confined to one block; bursts that move a block boundary are outside the statement's premise and only checked for 'not accepted unless sound'"],
         "units": [
             {"name": "c03.write", "pkg": BPV7, "test": "TestVerifC03Write", "shards_t": 8},
+            {"name": "c03.serialiser-histories", "pkg": BPV7, "test": "TestVerifC03SerialiserHistories", "shards_t": 16, "shards_q": 2},
             {"name": "c03.constructors", "pkg": BPV7, "test": "TestVerifC03Constructors"},
             {"name": "c03.bitflips", "pkg": BPV7, "test": "TestVerifC03BitFlips", "shards_t": 16},
             {"name": "c03.bursts", "pkg": BPV7, "test": "TestVerifC03Bursts", "shards_t": 16},
